@@ -395,6 +395,15 @@ impl<'a> Reader for ProtobufReader<'a> {
     fn read_bit_string<C: bitstring::Constraint>(&mut self) -> Result<(Vec<u8>, u64), Self::Error> {
         let mut reader = self.next_range_format_reader(Format::LengthDelimited); // TODO Format::VarInt ??
         let bytes = reader.read_bytes()?;
+        if bytes.is_empty() {
+            // absent field: the default, like every other scalar
+            return Ok((Vec::new(), 0));
+        }
+        if bytes.len() < std::mem::size_of::<u64>() {
+            return Err(Error::from(std::io::Error::from(
+                std::io::ErrorKind::UnexpectedEof,
+            )));
+        }
         let bits = BitVec::from_vec_with_trailing_bit_len(bytes);
         Ok(bits.split())
     }
